@@ -126,8 +126,8 @@ pub struct BaseRun<G: Cv> {
 
 pub fn make_base<G: Cv>(env: &Env<G>, prog: &Program, seed: u64) -> Result<BaseRun<G>, String> {
     let pr = guarded(|| program::prove::<G>(prog, &env.pc, &env.bp, seed, "c05", Dev::None))?;
-    let bytes = pr.proof?;
-    let proof = R1CSProof::<G>::from_bytes(&bytes).map_err(|e| format!("{:?}", e))?;
+    let _bytes = pr.proof.clone()?;
+    let proof = pr.obj.clone().ok_or("no proof object")?;
     let rc = &pr.ctx.refcs;
     let kterms: Vec<usize> = rc.k_terms.clone();
     Ok(BaseRun { prog: prog.clone(), comms: pr.commitments, proof, honest: rc.honest.clone(), gates: rc.gates(), kterms })
